@@ -878,7 +878,7 @@ class Pass2(CompilePass):
         if not node.arg.type.is_numeric:
             raise CompileError(EC.TYPE_MISMATCH, node=node)
 
-    def process_call_pre(self, node):
+    def process_call_post(self, node):
         for arg in node.args:
             if isinstance(arg, Lvalue) and arg.type.is_array:
                 raise CompileError(
